@@ -129,9 +129,18 @@ def main():
             by_sig.setdefault(r['violation']['signature'], []).append(r)
     commit = lib.repo_commit()
     new_violations = []
-    min_budget = 45 if args.tier == 'quick' else 180
-    for sig, rs in list(by_sig.items())[:6]:
+    min_budget = 30 if args.tier == 'quick' else 180
+    total_deadline = time.time() + (75 if args.tier == 'quick' else 900)
+    # hangs are the most expensive to minimise (every candidate may cost the wall backstop): do them last
+    ordered = sorted(by_sig.items(), key=lambda kv: '/no-result/' in kv[0])
+    extra = []
+    for sig, rs in ordered:
         r = min(rs, key=lambda x: x['n_ops'])
+        if len(new_violations) >= 6 or (new_violations and time.time() > total_deadline):
+            # reported with its unminimised trace
+            path = core.write_replay(world, r, r['ops'], r['violation'], len(r['ops']), verif_seed, commit)
+            extra.append((sig, path, len(rs)))
+            continue
         ops, tests, reproduced = core.minimise(world, r['leg'], r['cfg'], r['ops'], sig, budget_s=min_budget)
         prelude = None
         if not reproduced:
@@ -157,7 +166,6 @@ def main():
                 print('HARNESS-ERROR: minimised replay %s does not reproduce in a fresh interpreter:\n%s' % (path, out))
                 return 2
         new_violations.append((sig, path, v, len(rs)))
-    extra = list(by_sig.items())[6:]
 
     # known findings that were hit (the run continued past them)
     known_seen = collections.Counter()
@@ -175,8 +183,9 @@ def main():
         print('SIGNATURE %s (%d runs)' % (sig, n))
         print('  step %s: %s' % (v['step'], v['message'][:600]))
         print('VIOLATION property=%s replay=%s' % (args.prop, path))
-    for sig, rs in extra:
-        print('VIOLATION property=%s replay=<not minimised: %s, %d runs>' % (args.prop, sig, len(rs)))
+    for sig, path, n in extra:
+        print('SIGNATURE %s (%d runs, trace not minimised)' % (sig, n))
+        print('VIOLATION property=%s replay=%s' % (args.prop, path))
 
     # ---- evidence ----
     counters = collections.Counter()
